@@ -330,14 +330,22 @@ def c14_run(spec, feed=None):
 # ----------------------------------------------------------------------------------------------
 # C19: real hio.core.http.clienting.Client over scripted connectors talking to a scripted world of servers
 
-REASONS = {200: "OK", 201: "Created", 404: "Not Found", 500: "Internal Server Error",
+REASONS = {102: "Processing", 204: "No Content", 304: "Not Modified", 200: "OK", 201: "Created", 404: "Not Found", 500: "Internal Server Error",
            301: "Moved Permanently", 302: "Found", 303: "See Other", 307: "Temporary Redirect", 300: "Multiple Choices"}
 HOST = "127.0.0.1"
 
 
-def c19_response_bytes(resp):
+def c19_bodiless(method, status):
+    """responses that end at the blank line whatever their header fields say (RFC 7230 3.3.3)"""
+    return method == b"HEAD" or status in (204, 304) or 100 <= status < 200
+
+
+def c19_response_bytes(resp, method=b"GET"):
     """resp = (status, loc, body, framing, delay, cuts, close)
-       loc: None | (secure 0|1, port, path bytes)          framing: 0 Content-Length | 1 chunked | 2 until-close | 3 Content-Length but truncated by close
+       loc: None | (secure 0|1, port, target bytes: path, optionally ?query)
+       framing: 0 Content-Length | 1 chunked | 2 until-close | 3 Content-Length but truncated by close
+       For a bodiless response (HEAD request, 1xx / 204 / 304) the head is the same (Content-Length = entity length, or
+       Transfer-Encoding: chunked) but NO body byte is sent, as a correct server does.
        returns (bytes, close_after)"""
     status, loc, body, framing, delay, cuts, close = resp
     lines = ["HTTP/1.1 %d %s" % (status, REASONS.get(status, "X"))]
@@ -363,6 +371,8 @@ def c19_response_bytes(resp):
         lines.append("Content-Length: %d" % (len(body) + 5))
         out = body
         close = True
+    if c19_bodiless(method, status):
+        out = b""
     head = ("\r\n".join(lines) + "\r\n\r\n").encode("ascii")
     return head + out, bool(close)
 
@@ -416,7 +426,7 @@ class World:
             script = self.scripts[port]
             resp = script[k] if k < len(script) else (200, None, b"", 0, 0, [], False)
             self.served.append(resp)
-            raw, close = c19_response_bytes(resp)
+            raw, close = c19_response_bytes(resp, head.split(b" ", 1)[0])
             delay, cuts = resp[4], resp[5]
             pts = sorted(set(min(max(c, 1), len(raw)) for c in cuts) | {len(raw)})
             t = self.tick_no + delay
@@ -516,8 +526,9 @@ def c19_run(case):
         n_first = max(1, len(reqs) - min(late, len(reqs))) if reqs else 0
 
         def queue(k):
-            method, path, body = reqs[k]
-            client.request(method=method.decode("ascii"), path=path.decode("ascii"), qargs={}, headers={}, body=bytes(body), reply=k)
+            method, path, body = reqs[k][:3]
+            qargs = dict((a.decode("utf-8"), b.decode("utf-8")) for a, b in (reqs[k][3] if len(reqs[k]) > 3 else []))
+            client.request(method=method.decode("ascii"), path=path.decode("ascii"), qargs=qargs, headers={}, body=bytes(body), reply=k)
         for k in range(n_first):
             queue(k)
         queued = n_first
@@ -554,6 +565,7 @@ def c19_run(case):
         rq = r["request"]
         entries.append(dict(status=r["status"], body=bytes(r["body"]), errored=bool(r["errored"]), tag=rq.get("reply"),
                             method=rq.get("method"), path=rq.get("path"), rbody=bytes(rq.get("body") or b""),
+                            rqargs=[(a.encode("utf-8"), str(b).encode("utf-8")) for a, b in (rq.get("qargs") or {}).items()],
                             redirects=[(h["status"], h["request"].get("path"), h["request"].get("reply")) for h in r.get("redirects", [])]))
     wire = []
     for p, h, b, tls in world.wire:
